@@ -16,7 +16,7 @@ def file_spec(rng, kind=None, p_enc=0.0, max_len=300, p_config=0.0):
         spec["key"] = G.session_key_spec(rng)
     else:
         spec["blocks"] = prov.blocks_spec(rng)
-        spec["key"] = G.session_key_spec(rng, allow_default=False) if rng.random() < 0.5 else None
+        spec["key"] = G.session_key_spec(rng, allow_default=rng.random() < 0.3) if rng.random() < 0.5 else None
         spec["script"] = []
         if spec["key"] is None:
             forced = prov.session_key_script(rng, spec["blocks"])
